@@ -37,6 +37,8 @@ def frame_type(t, R, H, M, notes):
         return ("Frac", "Cart", frozenset())
     k = t[0]
     if is_mask(t, M):
+        if mask_is_column(t):
+            return ("Mask", "1", frozenset())       # mask[:, np.newaxis]: one factor per ROW of the other operand
         return ("1", "Mask", frozenset())
     if k == "call":
         f, a = t[1], t[2]
@@ -61,10 +63,10 @@ def frame_type(t, R, H, M, notes):
             return (c1, c2, t1 | t2)
         if f in NEAREST and a:
             r, c, tg = frame_type(a[0], R, H, M, notes)
-            return (r, c, tg | {"Nearest:" + c})
+            return (r, c, tg | {"Nearest:" + (r if c == "Pt" else c)})      # column form: components are the rows
         if f in DIRECTED and a:
             r, c, tg = frame_type(a[0], R, H, M, notes)
-            return (r, c, tg | {"Directed:" + c})
+            return (r, c, tg | {"Directed:" + (r if c == "Pt" else c)})
         if f == ".astype" and a:
             r, c, tg = frame_type(a[0], R, H, M, notes)
             if len(a) > 1 and "int" in show(a[1]):
@@ -89,6 +91,14 @@ def frame_type(t, R, H, M, notes):
         if op in ("+", "-", "*", "/"):
             r1, c1, t1 = frame_type(t[2], R, H, M, notes)
             r2, c2, t2 = frame_type(t[3], R, H, M, notes)
+            if r1 == "Mask" or r2 == "Mask":
+                # column-oriented mask: acts on the rows of the other operand, which must be fractional components
+                orow, ocol, otg = (r2, c2, t2) if r1 == "Mask" else (r1, c1, t1)
+                if op != "*":
+                    raise Clash(f"mask combined with {op} in {show(t)[:80]}")
+                if orow != "Frac":
+                    raise Clash(f"periodicity mask multiplies {orow} rows in {show(t)[:90]}: it must act on fractional coordinates")
+                return (orow, ocol, t1 | t2 | {"Masked"})
             if c1 == "Mask" or c2 == "Mask":
                 other = c2 if c1 == "Mask" else c1
                 if op != "*":
@@ -121,6 +131,21 @@ def is_mask(t, M):
     return False
 
 
+def mask_is_column(t):
+    """mask[:, np.newaxis] / mask.reshape(-1, 1): a column (one entry per row of the operand it multiplies)"""
+    if t[0] == "sub" and t[2][0] == "tuple" and len(t[2][1]) == 2:
+        a, b = t[2][1]
+        if a == ("slice", NONE, NONE, NONE) and (b == ("mod", "numpy.newaxis") or b == NONE):
+            return True
+        return False
+    if t[0] == "call" and t[1] == ".reshape" and len(t[2]) >= 2:
+        dims = t[2][1:] if len(t[2]) > 2 else (t[2][1][1] if t[2][1][0] == "tuple" else (t[2][1],))
+        return len(dims) == 2 and dims[1] == ("const", 1)
+    if t[0] == "call" and t[1] in ("numpy.array", "numpy.asarray", "numpy.atleast_2d") and t[2]:
+        return mask_is_column(t[2][0])
+    return False
+
+
 # ---- non-commutative algebra
 Rs, Hs = sp.symbols("R H", commutative=False)
 Ms = sp.Symbol("m", commutative=False)
@@ -128,33 +153,51 @@ Rint = sp.Function("Nearest", commutative=False)
 Had = sp.Function("Had", commutative=False)      # Had(m, X): mask (.) X
 
 
-def nc(t, R, H, M):
+HsT = sp.Symbol("Ht", commutative=False)      # the transposed cell matrix where a transpose could not be cancelled
+RsT = sp.Symbol("Rt", commutative=False)
+
+
+def nc(t, R, H, M, tr=False):
+    """Non-commutative expression of `t` (tr=False) or of its transpose (tr=True); transposes are pushed down to the leaves:
+    (AB)^T = B^T A^T, (A^-1)^T = (A^T)^-1, solve(A, B) = A^-1 B, element-wise operations commute with the transpose."""
     if t == R:
-        return Rs
+        return RsT if tr else Rs
     if t == H:
-        return Hs
+        return HsT if tr else Hs
     if is_mask(t, M):
         return Ms
     k = t[0]
+    if k == "attr" and t[2] == "T":
+        return nc(t[1], R, H, M, not tr)
     if k == "call":
         f, a = t[1], t[2]
+        if f in ("numpy.transpose", ".transpose") and len(a) == 1:
+            return nc(a[0], R, H, M, not tr)
         if f in ("numpy.linalg.inv",) and len(a) == 1:
-            return nc(a[0], R, H, M) ** -1
+            return nc(a[0], R, H, M, tr) ** -1
         if f in DOTS and len(a) == 2:
+            if tr:
+                return nc(a[1], R, H, M, True) * nc(a[0], R, H, M, True)
             return nc(a[0], R, H, M) * nc(a[1], R, H, M)
+        if f == "numpy.linalg.solve" and len(a) == 2:
+            if tr:
+                return nc(a[1], R, H, M, True) * nc(a[0], R, H, M, True) ** -1
+            return nc(a[0], R, H, M) ** -1 * nc(a[1], R, H, M)
         if f in NEAREST and a:
-            x = nc(a[0], R, H, M)
+            x = nc(a[0], R, H, M, tr)
             return push_mask(Rint(x))
         if f in DIRECTED and a:
-            return sp.Function(f.split(".")[-1], commutative=False)(nc(a[0], R, H, M))
+            return sp.Function(f.split(".")[-1], commutative=False)(nc(a[0], R, H, M, tr))
         if f in ("numpy.array", "numpy.asarray", ".copy") and a:
-            return nc(a[0], R, H, M)
+            return nc(a[0], R, H, M, tr)
         raise Unknown(f"call {show(t)[:60]}")
     if k == "bin":
         op = t[1]
         if op == "@":
+            if tr:
+                return nc(t[3], R, H, M, True) * nc(t[2], R, H, M, True)
             return nc(t[2], R, H, M) * nc(t[3], R, H, M)
-        a, b = nc(t[2], R, H, M), nc(t[3], R, H, M)
+        a, b = nc(t[2], R, H, M, tr), nc(t[3], R, H, M, tr)
         if op == "+":
             return a + b
         if op == "-":
@@ -167,7 +210,7 @@ def nc(t, R, H, M):
             raise Unknown("element-wise product of two matrices")
         raise Unknown(f"operator {op}")
     if k == "un" and t[1] == "-":
-        return -nc(t[2], R, H, M)
+        return -nc(t[2], R, H, M, tr)
     raise Unknown(f"term {show(t)[:60]}")
 
 
@@ -324,7 +367,9 @@ def numeric_witness(ret, R, H, M, trials=40, lengths=None):
             return None
         A = Rm @ np.linalg.inv(Hm)
         want = Rm - (np.rint(A) * Mm[None, :]) @ Hm
-        if np.shape(got) != want.shape or not np.allclose(got, want, atol=1e-9):
+        if np.shape(got) != want.shape:
+            return None         # not a displacement array of the input's shape: an intermediate, nothing to compare
+        if not np.allclose(got, want, atol=1e-9):
             k = 0
             if np.shape(got) == want.shape:
                 k = int(np.argmax(np.abs(np.asarray(got) - want).max(axis=1)))
